@@ -4,6 +4,8 @@ from .. import core
 from ..core import Undecided
 
 KWLISTS = [["a"], ["ab"], ["*"], ["", "a"], ["a", "ab"], ["b", "A"], []]
+# raw values of --disable-config-keywords, parsed by the controller's own command-line handling
+KWOPTS = ["a", "b, A", " a ,ab", ",a", "a,", " * ", "ab , b,", "A,,a"]
 
 
 def cfg(spec, invs, maxlen):
@@ -47,6 +49,9 @@ def run(ctx):
         raise Undecided("TLC enumerated only %d texts with mixed line ends" % len(mixed))
     texts += mixed
     groups = [dict(kw=k, texts=texts) for k in KWLISTS]
+    # the same property with the keyword list given as the raw option value (a smaller text set: all texts of length <= 3 + mixed line ends)
+    short = [t for t in texts if len(t) <= 3] + mixed
+    groups += [dict(kw=[], opt=o, texts=short) for o in KWOPTS]
     inp = ctx.path("s", "in.json")
     out = ctx.path("s", "trace.ndjson")
     json.dump(groups, open(inp, "w"))
@@ -83,7 +88,7 @@ def run(ctx):
     dropped = sum(1 for r in recs.values() if not r["lines"] and any(c not in " \t\n" for c in r["text"]))
     core.write_evidence(ctx, [dict(text="".join(recs[json.loads(lines[-1])["id"]]["text"]), kw=recs[json.loads(lines[-1])["id"]]["kw"],
                                    lines=recs[json.loads(lines[-1])["id"]]["lines"])],
-                        extra=dict(texts=len(texts), keyword_lists=KWLISTS, backends_checked=nb, snippets_found_dropped=dropped, exhaustive=not q,
+                        extra=dict(texts=len(texts), keyword_lists=KWLISTS, raw_option_values=KWOPTS, backends_checked=nb, snippets_found_dropped=dropped, exhaustive=not q,
                                    bounds="all texts of length <= %d over {space, tab, newline, a, b, A}%s x 7 keyword lists, as Ingress annotation, "
                                           "Service annotation, or both (Service wins)" % (maxlen, " plus 1500 of length 5" if q else "")),
                         assumptions=["snippet lines are recognised in the backend section by their first token being a word over {a,b,A,*}",
